@@ -1,14 +1,153 @@
-"""C06 - see core_mod.SPEC['C06'] (generators, projections) and core_props.oracle_c06 (spec on the implementation)."""
+"""C06 - see core_mod.SPEC['C06'] (generators, projections) and core_props.oracle_c06 (spec on the implementation).
+
+Plus a directed, implementation-only case list `stale_tick_cases` (both tiers): a handler that runs the task loop
+(`self.tick()`) from inside a dispatch while `yield self.call(bar(), timeout=T)` is pending makes the enclosing
+`_dispatcher` go on with a handler list computed before the temporary `waitEvent` handlers were removed.  The stale
+closures must be harmless: the caller is resumed exactly once (result XOR TimeoutError) and nothing raises.
+(The Act language of the core model has no `tick` action; the model reaches the same situation through `stop()` outside
+the executing thread, see CV/Proofs/InvWait2Wit.lean.)"""
 import core_mod
+import framework
 
 
 def run(ctx):
     core_mod.run(ctx, 'C06')
+    stale_tick_cases(ctx)
 
 
 def search(ctx):
     core_mod.run(ctx, 'C06')
+    stale_tick_cases(ctx)
 
 
 def replay(ctx, case):
-    core_mod.replay(ctx, 'C06', case)
+    if case.get('kind') == 'stale_tick':
+        check_stale(ctx, case)
+    else:
+        core_mod.replay(ctx, 'C06', case)
+
+
+def stale_tick_cases(ctx):
+    """where: 'ge' = a generate_events handler (priority 10) runs the nested ticks at its `at`-th invocation after the call
+    was made; 'done' = a bar_done handler (priority 10) runs them.  `timeout` in loop iterations, `nested` ticks,
+    the callee yields `delay` times before it returns (so that for some rows the callee finishes in exactly the iteration
+    in which the countdown reaches 0)."""
+    for timeout in (0, 1, 2):
+        for delay in (0, 1, 2):
+            for nested in (1, 2, 3):
+                for at in (0, 1, 2, 3):
+                    check_stale(ctx, {'kind': 'stale_tick', 'where': 'ge', 'timeout': timeout, 'delay': delay,
+                                      'nested': nested, 'at': at})
+                check_stale(ctx, {'kind': 'stale_tick', 'where': 'done', 'timeout': timeout, 'delay': delay,
+                                  'nested': nested, 'at': 0})
+
+
+def check_stale(ctx, case):
+    outcomes, errors, finished = run_stale(case)
+    got = [o for o in outcomes if o != 'none']
+    ctx.case(case, nontrivial=True, validated=True)
+    ctx.count('stale_tick', case['where'] + ':' + '+'.join(outcomes or ['-']))
+    if len(got) > 1:
+        ctx.violate(case, 'both-outcomes(stale-tick)',
+                    f'the caller of call(bar(), timeout={case["timeout"]}) was resumed {len(got)} times: {got}')
+    elif errors:
+        ctx.violate(case, 'spurious-exception(stale-closure)',
+                    f'no user handler raises, yet exception events were fired: {errors[:2]} (outcomes {outcomes})')
+    elif not got or not finished:
+        ctx.violate(case, 'caller-lost(stale-closure)', f'outcomes {outcomes}, finished={finished}')
+
+
+def run_stale(case):
+    """one real run() loop; returns (outcomes seen by the caller, exception events, caller finished)"""
+    import atexit
+    import signal
+    import threading
+    framework.setup_import_path()
+    from circuits import Component, Event, handler
+    from circuits.core import helpers, manager
+
+    class foo(Event):
+        pass
+
+    class bar(Event):
+        pass
+
+    outcomes, errors, state = [], [], {'armed': False, 'seen': 0, 'nesting': False, 'fin': False, 'n': 0}
+
+    class App(Component):
+        @handler('foo')
+        def on_foo(self):
+            state['armed'] = True
+            try:
+                x = yield self.call(bar(), timeout=case['timeout'])
+                outcomes.append('result' if x.value == 'bar-result' else 'wrong-result')
+            except manager.TimeoutError:
+                outcomes.append('timeout')
+            for _ in range(3):
+                try:
+                    yield None
+                except manager.TimeoutError:
+                    outcomes.append('late-timeout')
+            state['fin'] = True
+
+        @handler('bar')
+        def on_bar(self):
+            for _ in range(case['delay']):
+                yield None
+            yield 'bar-result'
+
+        def nest(self):
+            if not state['nesting']:
+                state['nesting'] = True
+                for _ in range(case['nested']):
+                    self.tick(0)
+
+        @handler('generate_events', priority=10)
+        def on_ge(self, event):
+            if case['where'] == 'ge' and state['armed']:
+                if state['seen'] == case['at']:
+                    self.nest()
+                state['seen'] += 1
+
+        @handler('bar_done', priority=10)
+        def on_bar_done(self, *args):
+            if case['where'] == 'done':
+                self.nest()
+
+        @handler('started')
+        def on_started(self, *args):
+            self.fire(foo())
+
+        @handler('generate_events', priority=-50)
+        def on_idle(self, event):
+            event.reduce_time_left(0)       # never sleep
+            state['n'] += 1
+            if state['n'] > 30:
+                self.stop()
+
+        @handler('exception')
+        def on_exception(self, etype, evalue, tb, handler=None, fevent=None):
+            errors.append(f'{etype.__name__} in {getattr(fevent, "name", None)}')
+
+    class Sink:
+        def write(self, *_a):
+            pass
+
+        def flush(self):
+            pass
+
+    main = threading.current_thread() is threading.main_thread()
+    if main:
+        old = signal.getsignal(signal.SIGINT), signal.getsignal(signal.SIGTERM)
+    saved = helpers.stderr, manager.stderr
+    helpers.stderr = manager.stderr = Sink()
+    app = App()
+    try:
+        app.run()
+    finally:
+        atexit.unregister(app.stop)
+        helpers.stderr, manager.stderr = saved
+        if main:
+            signal.signal(signal.SIGINT, old[0])
+            signal.signal(signal.SIGTERM, old[1])
+    return outcomes, errors, state['fin']
